@@ -54,6 +54,13 @@ func (d *uintDecoder) parseUint(b []byte) (uint64, error) {
 		digitValue := pow10u64[maxDigit-i-1]
 		sum += c * digitValue
 	}
+	if maxDigit == pow10u64Len {
+		// 20 digits: only 10000000000000000000..18446744073709551615 fit;
+		// anything larger has wrapped around and is smaller than 1e19.
+		if b[0] != '1' || sum < pow10u64[pow10u64Len-1] {
+			return 0, fmt.Errorf("number is out of range of uint64")
+		}
+	}
 	return sum, nil
 }
 
